@@ -1098,8 +1098,13 @@ func (b *ASTBuilder) buildSubscript(tsNode *sitter.Node) *Node {
 		node.Value = b.buildNode(value)
 	}
 
-	if subscript := b.getChildByFieldName(tsNode, "subscript"); subscript != nil {
-		node.AddChild(b.buildNode(subscript))
+	// x[a, b] has one "subscript" field per comma-separated argument
+	childCount := int(tsNode.ChildCount())
+	for i := 0; i < childCount; i++ {
+		child := tsNode.Child(i)
+		if child != nil && tsNode.FieldNameForChild(i) == "subscript" {
+			node.AddChild(b.buildNode(child))
+		}
 	}
 
 	return node
